@@ -416,7 +416,7 @@ def collect_corpus():
 def gen_inputs(env):
     rng = env.rng
     quick = env.tier == "quick"
-    n_gen = 600 if quick else 5000
+    n_gen = 600 if quick else 12000
     k = 8 if quick else 12
     progs = []
     for key, text in collect_corpus():
@@ -455,7 +455,7 @@ def run_harness(env, name, lines, timeout, release=False):
     start = 0
     while start < len(lines):
         try:
-            p = subprocess.run([common.harness_bin(release), "layout", "--from", str(start), inp, outp],
+            p = subprocess.run([common.harness_bin(release), "layout", "--limit-ms", "60000", "--from", str(start), inp, outp],
                                stdin=subprocess.DEVNULL, stdout=subprocess.DEVNULL, stderr=subprocess.PIPE, timeout=timeout)
             rc = p.returncode
         except subprocess.TimeoutExpired:
